@@ -278,6 +278,9 @@ pub struct WorldCfg {
     /// Cooperative budget (0 = none): every poll of the server future may make this many transport operations; then
     /// every transport answers `Pending` until the next poll (see `vnet::Wire::coop`).
     pub coop: u32,
+    /// The service's `handle()` suspends this many times (yields to the executor) before it answers: while it is
+    /// suspended the server future is pending with a call taken off its connection and not yet answered.
+    pub handle_yields: u8,
 }
 
 #[derive(Debug, Clone, PartialEq)]
@@ -327,6 +330,7 @@ pub struct Shared {
     pub applied: Vec<(u64, Ev, bool)>,
     pub steps_done: usize,
     pub lean: bool,
+    pub handle_yields: u8,
 }
 
 impl Shared {
@@ -384,6 +388,21 @@ impl Shared {
 
 pub type SharedRef = Rc<RefCell<Shared>>;
 
+/// Suspends once and asks to be polled again.
+pub struct YieldOnce(pub bool);
+impl std::future::Future for YieldOnce {
+    type Output = ();
+    fn poll(mut self: Pin<&mut Self>, cx: &mut Context<'_>) -> Poll<()> {
+        if self.0 {
+            Poll::Ready(())
+        } else {
+            self.0 = true;
+            cx.waker().wake_by_ref();
+            Poll::Pending
+        }
+    }
+}
+
 #[derive(Debug)]
 pub struct Svc {
     pub sh: SharedRef,
@@ -419,6 +438,10 @@ impl Service for Svc {
                 sh.steps_done += 1;
                 sh.apply(&st.ev, true);
             }
+        }
+        let yields = self.sh.borrow().handle_yields;
+        for _ in 0..yields {
+            YieldOnce(false).await;
         }
         match call.method() {
             M::Echo { client, seq, payload } => {
@@ -594,6 +617,7 @@ pub fn run_world(cfg: &WorldCfg) -> WorldOut {
         applied: Vec::new(),
         steps_done: 0,
         lean: cfg.lean,
+        handle_yields: cfg.handle_yields,
     }));
     let _ = vnet::trace::take();
     NOW.with(|c| c.set(0));
@@ -653,7 +677,7 @@ pub fn run_world(cfg: &WorldCfg) -> WorldOut {
                     polls += 1;
                     out.total_polls += 1;
                     refill();
-                    match vnet::poll_once(fut.as_mut()) {
+                    match flag.poll(fut.as_mut()) {
                         Poll::Ready(r) => {
                             out.server_exit = Some(format!("{r:?}"));
                             done = true;
@@ -662,7 +686,9 @@ pub fn run_world(cfg: &WorldCfg) -> WorldOut {
                         Poll::Pending => {}
                     }
                     let after = progress_sig(&sh.borrow());
-                    if after == before {
+                    // (a task that woke itself - a service that yields inside handle() - wants another poll even
+                    // though nothing observable has changed yet)
+                    if after == before && !flag.is_set() {
                         break;
                     }
                     if polls > 10_000 {
@@ -942,6 +968,8 @@ pub struct Scenario {
     pub lean: bool,
     /// see `WorldCfg::coop`
     pub coop: u32,
+    /// see `WorldCfg::handle_yields`
+    pub handle_yields: u8,
 }
 
 pub fn hexs(b: &[u8]) -> String {
@@ -964,6 +992,7 @@ impl Scenario {
             wake: self.wake,
             lean: self.lean,
             coop: self.coop,
+            handle_yields: self.handle_yields,
         }
     }
 
@@ -980,6 +1009,7 @@ impl Scenario {
             "wake": self.wake,
             "lean": self.lean,
             "coop": self.coop,
+            "handle_yields": self.handle_yields,
         })
     }
 
@@ -1005,6 +1035,7 @@ impl Scenario {
             wake: v["wake"].as_bool().unwrap_or(false),
             lean: v["lean"].as_bool().unwrap_or(false),
             coop: v["coop"].as_u64().unwrap_or(0) as u32,
+            handle_yields: v["handle_yields"].as_u64().unwrap_or(0) as u8,
         }
     }
 
@@ -1024,6 +1055,9 @@ impl Scenario {
         if self.coop > 0 {
             h = vnet::fnv_mix(h, 0x636f6f70 + self.coop as u64);
         }
+        if self.handle_yields > 0 {
+            h = vnet::fnv_mix(h, 0x7969656c + self.handle_yields as u64);
+        }
         vnet::fnv_mix(h, vnet::fnv(format!("{:?}", self.steps).as_bytes()))
     }
 
@@ -1031,6 +1065,9 @@ impl Scenario {
         let mut s = String::new();
         if self.wake {
             s.push_str("[wake-driven] ");
+        }
+        if self.handle_yields > 0 {
+            s.push_str(&format!("[the service suspends {} time(s) in every handle()] ", self.handle_yields));
         }
         if self.coop > 0 {
             s.push_str(&format!("[cooperative budget: {} transport operations per poll] ", self.coop));
